@@ -86,8 +86,9 @@ def handle (tb : Tables) (c impl : T) : String :=
         let alt := sdlObs cm { emptyTokenSpins := !tb.sdlEmptyTokenSpins } bytes tail
         verdict impl cur [{ flag := "D01", onInCur := tb.sdlEmptyTokenSpins, obs := alt }] specOk
       | "exe" =>
-        let cur := exeObs cm { varTypeOptional := tb.exeVarTypeOptional } bytes tail
-        let alt := exeObs cm { varTypeOptional := !tb.exeVarTypeOptional } bytes tail
+        let cfgE : ExeCF.Cfg := { varTypeOptional := tb.exeVarTypeOptional, opErrPosAfterLookahead := tb.opErrPosAfterLookahead }
+        let cur := exeObs cm cfgE bytes tail
+        let alt := exeObs cm { cfgE with varTypeOptional := !tb.exeVarTypeOptional } bytes tail
         -- the scanner returns either way; the nil type only crashes later (validation), so this flag is never a
         -- scanner-level deviation: it only selects the member of the family the scanner behaves as
         verdict impl cur [{ flag := "D05", onInCur := false, obs := alt }] specOk
